@@ -349,38 +349,101 @@ theorem C09_mixed_between (T : ℝ) (h : e_eq_ice_mk T ≤ e_eq_water_mk T) :
   · nlinarith
   · nlinarith
 
-/-- the mixed-phase function is continuous on the blend interval (composition of continuous
-maps); together with `C09_mixed_branches` this is continuity "in between" -/
-theorem C09_mixed_blend_continuousOn :
-    ContinuousOn (fun T => e_eq_ice_mk T +
-        (e_eq_water_mk T - e_eq_ice_mk T) * ((T - C.triple_point_water + 23) / 23) ^ 2)
-      (Set.Ioi 0) := by
+private theorem ice_continuousOn : ContinuousOn e_eq_ice_mk (Set.Ioi 0) := by
   have hlog : ContinuousOn Real.log (Set.Ioi (0 : ℝ)) :=
     Real.continuousOn_log.mono (fun x hx => ne_of_gt hx)
   have hinv : ∀ c : ℝ, ContinuousOn (fun T : ℝ => c / T) (Set.Ioi 0) := fun c =>
     continuousOn_const.div continuousOn_id (fun x hx => ne_of_gt hx)
-  have hice : ContinuousOn e_eq_ice_mk (Set.Ioi 0) := by
-    unfold e_eq_ice_mk
-    apply Real.continuous_exp.comp_continuousOn
-    exact (((continuousOn_const.sub (hinv _)).add (continuousOn_const.mul hlog)).sub
-      (continuousOn_const.mul continuousOn_id))
-  have hwat : ContinuousOn e_eq_water_mk (Set.Ioi 0) := by
-    unfold e_eq_water_mk
-    apply Real.continuous_exp.comp_continuousOn
-    have htanh : Continuous (fun T : ℝ => Real.tanh ((83 : ℝ) / 2000 * (T - 1094 / 5))) := by
-      have : Continuous Real.tanh := by
-        have h : Real.tanh = fun x => Real.sinh x / Real.cosh x := by
-          funext x; exact Real.tanh_eq_sinh_div_cosh x
-        rw [h]
-        exact Real.continuous_sinh.div Real.continuous_cosh (fun x => ne_of_gt (Real.cosh_pos x))
-      exact this.comp (continuous_const.mul (continuous_id.sub continuous_const))
-    exact ((((continuousOn_const.sub (hinv _)).sub (continuousOn_const.mul hlog)).add
-      (continuousOn_const.mul continuousOn_id)).add
-      (htanh.continuousOn.mul
-        (((continuousOn_const.sub (hinv _)).sub (continuousOn_const.mul hlog)).add
-          (continuousOn_const.mul continuousOn_id))))
-  exact hice.add ((hwat.sub hice).mul
+  unfold e_eq_ice_mk
+  apply Real.continuous_exp.comp_continuousOn
+  exact (((continuousOn_const.sub (hinv _)).add (continuousOn_const.mul hlog)).sub
+    (continuousOn_const.mul continuousOn_id))
+
+private theorem water_continuousOn : ContinuousOn e_eq_water_mk (Set.Ioi 0) := by
+  have hlog : ContinuousOn Real.log (Set.Ioi (0 : ℝ)) :=
+    Real.continuousOn_log.mono (fun x hx => ne_of_gt hx)
+  have hinv : ∀ c : ℝ, ContinuousOn (fun T : ℝ => c / T) (Set.Ioi 0) := fun c =>
+    continuousOn_const.div continuousOn_id (fun x hx => ne_of_gt hx)
+  unfold e_eq_water_mk
+  apply Real.continuous_exp.comp_continuousOn
+  have htanh : Continuous (fun T : ℝ => Real.tanh ((83 : ℝ) / 2000 * (T - 1094 / 5))) := by
+    have : Continuous Real.tanh := by
+      have h : Real.tanh = fun x => Real.sinh x / Real.cosh x := by
+        funext x; exact Real.tanh_eq_sinh_div_cosh x
+      rw [h]
+      exact Real.continuous_sinh.div Real.continuous_cosh (fun x => ne_of_gt (Real.cosh_pos x))
+    exact this.comp (continuous_const.mul (continuous_id.sub continuous_const))
+  exact ((((continuousOn_const.sub (hinv _)).sub (continuousOn_const.mul hlog)).add
+    (continuousOn_const.mul continuousOn_id)).add
+    (htanh.continuousOn.mul
+      (((continuousOn_const.sub (hinv _)).sub (continuousOn_const.mul hlog)).add
+        (continuousOn_const.mul continuousOn_id))))
+
+/-- the blend expression is continuous for positive temperatures -/
+theorem C09_mixed_blend_continuousOn :
+    ContinuousOn (fun T => e_eq_ice_mk T +
+        (e_eq_water_mk T - e_eq_ice_mk T) * ((T - C.triple_point_water + 23) / 23) ^ 2)
+      (Set.Ioi 0) :=
+  ice_continuousOn.add ((water_continuousOn.sub ice_continuousOn).mul
     (((continuousOn_id.sub continuousOn_const).add continuousOn_const).div_const _ |>.pow 2))
+
+/-- **`e_eq_mixed_mk` itself is continuous for all positive temperatures** — across both branch
+temperatures (the three pieces agree there) and in between. -/
+theorem C09_mixed_continuousOn : ContinuousOn e_eq_mixed_mk (Set.Ioi 0) := by
+  set Tt := C.triple_point_water with hTt
+  -- the function as a two-level `if … ≤ …` whose pieces agree on the boundaries
+  have hform : ∀ T, e_eq_mixed_mk T =
+      if T ≤ Tt - 23 then e_eq_ice_mk T
+      else if T ≤ Tt then e_eq_ice_mk T + (e_eq_water_mk T - e_eq_ice_mk T) * ((T - Tt + 23) / 23) ^ 2
+      else e_eq_water_mk T := by
+    intro T
+    by_cases h1 : T ≤ Tt - 23
+    · rw [if_pos h1]
+      rcases eq_or_lt_of_le h1 with heq | hlt
+      · rw [heq]; exact C09_mixed_continuous_at_branches.1
+      · exact (C09_mixed_branches T).1 hlt
+    · rw [if_neg h1]
+      by_cases h2 : T ≤ Tt
+      · rw [if_pos h2]
+        exact (C09_mixed_branches T).2.2 (not_le.mp h1).le h2
+      · rw [if_neg h2]
+        exact (C09_mixed_branches T).2.1 (not_le.mp h2)
+  rw [continuousOn_iff_continuous_restrict]
+  have hI := continuousOn_iff_continuous_restrict.mp ice_continuousOn
+  have hW := continuousOn_iff_continuous_restrict.mp water_continuousOn
+  have hB := continuousOn_iff_continuous_restrict.mp C09_mixed_blend_continuousOn
+  have hval : Continuous (fun x : Set.Ioi (0 : ℝ) => (x : ℝ)) := continuous_subtype_val
+  have hinner : Continuous (fun x : Set.Ioi (0 : ℝ) =>
+      if (x : ℝ) ≤ Tt then (Set.Ioi (0 : ℝ)).restrict (fun T => e_eq_ice_mk T +
+        (e_eq_water_mk T - e_eq_ice_mk T) * ((T - Tt + 23) / 23) ^ 2) x
+      else (Set.Ioi (0 : ℝ)).restrict e_eq_water_mk x) := by
+    apply Continuous.if_le hB hW hval continuous_const
+    intro x hx
+    have hx' : (x : ℝ) = Tt := hx
+    show e_eq_ice_mk (x : ℝ) + (e_eq_water_mk (x : ℝ) - e_eq_ice_mk (x : ℝ)) * (((x : ℝ) - Tt + 23) / 23) ^ 2
+      = e_eq_water_mk (x : ℝ)
+    rw [hx']
+    have : (Tt - Tt + 23) / 23 = (1 : ℝ) := by rw [sub_self]; norm_num
+    rw [this]; ring
+  have houter : Continuous (fun x : Set.Ioi (0 : ℝ) =>
+      if (x : ℝ) ≤ Tt - 23 then (Set.Ioi (0 : ℝ)).restrict e_eq_ice_mk x
+      else (if (x : ℝ) ≤ Tt then (Set.Ioi (0 : ℝ)).restrict (fun T => e_eq_ice_mk T +
+        (e_eq_water_mk T - e_eq_ice_mk T) * ((T - Tt + 23) / 23) ^ 2) x
+      else (Set.Ioi (0 : ℝ)).restrict e_eq_water_mk x)) := by
+    apply Continuous.if_le hI hinner hval continuous_const
+    intro x hx
+    have hx' : (x : ℝ) = Tt - 23 := hx
+    have hle : (x : ℝ) ≤ Tt := by rw [hx']; linarith
+    show e_eq_ice_mk (x : ℝ) = if (x : ℝ) ≤ Tt then
+        (e_eq_ice_mk (x : ℝ) + (e_eq_water_mk (x : ℝ) - e_eq_ice_mk (x : ℝ)) * (((x : ℝ) - Tt + 23) / 23) ^ 2)
+      else e_eq_water_mk (x : ℝ)
+    rw [if_pos hle, hx']
+    have h0 : (Tt - 23 - Tt + 23) / 23 = (0 : ℝ) := by ring
+    rw [h0]; ring
+  refine houter.congr ?_
+  intro x
+  simp only [Set.restrict_apply]
+  exact (hform x).symm
 
 /-! ## Relative humidity and the moist-adiabatic lapse rate -/
 
@@ -445,7 +508,7 @@ theorem C09_lapse_bounds (e_eq : ℝ → ℝ) (p T : ℝ) (hT : 0 < T) (hT4 : T 
 
 /-- … and it approaches the dry-adiabatic value as the saturation mixing ratio vanishes
 (here: as the pressure grows without bound at fixed temperature, `e_s/p → 0`). -/
-theorem C09_lapse_dry_limit (e_eq : ℝ → ℝ) (T : ℝ) :
+theorem C09_lapse_dry_limit (e_eq : ℝ → ℝ) (T : ℝ) (_hT : 0 < T) :
     Filter.Tendsto (fun p => moist_lapse_rate p T e_eq) Filter.atTop
       (nhds (C.earth_standard_gravity / C.isobaric_mass_heat_capacity)) := by
   have hRd := C.gas_constant_dry_air_pos
@@ -501,4 +564,4 @@ assert_axioms C09_inverse_xw C09_inverse_wx C09_inverse_xq C09_inverse_qx C09_in
   C09_strictMono_specific_humidity2mixing_ratio C09_strictMono_vmr2specific_humidity
   C09_strictMono_specific_humidity2vmr C09_e_pos C09_T_guard C09_e_ice_strictMono
   C09_mixed_branches C09_mixed_continuous_at_branches C09_mixed_between
-  C09_mixed_blend_continuousOn C09_rh_vmr_inverse C09_lapse_bounds C09_lapse_dry_limit
+  C09_mixed_blend_continuousOn C09_mixed_continuousOn C09_rh_vmr_inverse C09_lapse_bounds C09_lapse_dry_limit
